@@ -11,4 +11,5 @@ Extraction "../ocaml/gen/model.ml" EncModel.url_encode EncModel.url_dec_buf EncM
    StrModel.qstrtrim StrModel.qstrtrim_head StrModel.qstrtrim_tail StrModel.qstrunchar StrModel.qstrreplace StrModel.qstrcpy StrModel.qstrncpy
    StrModel.qstrdup_between StrModel.qmemdup StrModel.qstrgets StrModel.qstrrev StrModel.qstrupper StrModel.qstrlower StrModel.qstrtok StrModel.qstrtokenizer
    StrSpec.trim_spec StrSpec.trim_head_spec StrSpec.trim_tail_spec StrSpec.unchar_spec StrSpec.replace_tok_spec StrSpec.replace_str_spec StrSpec.strcpy_spec
-   StrSpec.strncpy_spec StrSpec.gets_spec StrSpec.upper_spec StrSpec.lower_spec StrSpec.tokenize_spec StrSpec.strtok_spec.
+   StrSpec.strncpy_spec StrSpec.gets_spec StrSpec.upper_spec StrSpec.lower_spec StrSpec.tokenize_spec StrSpec.strtok_spec
+   StrModel.qstr_comma_number StrSpec.comma_spec.
